@@ -86,6 +86,10 @@ def mapping_inputs(tier, seed):
     for n in range(1, 3):
         for t in itertools.product(lines[:20 if tier == 'quick' else 60], repeat=n):
             yield ([list(l) for l in t],)
+    # every base64 digit as a first group and as a continuation group, positive and negative, in segment position 0 and 3
+    for d in range(32):
+        for v in (d, -d, d + 16 * 32, -(d + 16 * 32), (d << 4) + 5, -((d << 4) + 5)):
+            yield ([[(v, 0, 0, 0), (0, 0, 1, v)], [(1, 0, 0, v, v)]],)
 
 
 def canon_inputs(tier, seed):
